@@ -253,5 +253,16 @@ def build():
     return reg
 
 
+def extra_obligations(mods, tier, seed):
+    """end-to-end complement of the template contracts: LCD commands with literal arguments through the real parser and emitter,
+    cells on the firmware mock against the host LCD's buffer at every marker (BOUNDED)"""
+    from progs import devdiff
+    out = devdiff.obligations("C17/diff", devdiff.lcd_scripts(), lcd=True, what="display cells equal the host LCD buffer after every command")
+    PROPERTY.setdefault("bounded", [])
+    PROPERTY["bounded"] = [b for b in PROPERTY["bounded"] if b.get("check") != "device differential"] + [
+        {"check": "device differential", "bound": f"{len(out)} scripts (write/line/message/clear/progress x parallel, I2C, 20x4), literal arguments incl. mixed-case alignments"}]
+    return out
+
+
 def extra_evidence():
-    return {"device_snippet_sha256": _B.get("sha"), "device_functions": _B.get("functions")}
+    return {"device_snippet_sha256": _B.get("sha"), "device_functions": _B.get("functions"), "bounded": PROPERTY.get("bounded", [])}
